@@ -96,6 +96,50 @@ Definition dec_tipidx (s : sexp) : option (string * Z) := dec_pair dec_string de
     tip (the single-branch tree with 2 tips) *)
 Definition names_of (g : utree) : list string := if is_tip g then tip_names g else leaves g.
 
+(** Node.Depth(): number of branches to the closest tip (through any neighbour); root depth: number
+    of branches from the root (set by ComputeDepths for rooted trees only).  Computed on the dump:
+    [down] = closest tip below, then the closest tip through the parent is pushed down. *)
+Definition big : nat := 4000.
+Fixpoint down (t : utree) : nat :=
+  match t with
+  | UNode _ _ sl =>
+    if Nat.eqb (length sl) 1 then 0
+    else S (fold_right (fun s acc => match s with Some (_, c) => Nat.min (down c) acc | None => acc end) big sl)
+  end.
+(** depths in Nodes() order; [up] = distance to the closest tip not below this node *)
+Fixpoint depths_from (up : nat) (lvl : nat) (t : utree) : list (nat * nat) :=
+  match t with
+  | UNode _ _ sl =>
+    let here := if Nat.eqb (length sl) 1 then 0 else Nat.min (down t) up in
+    let kd := map (fun s => match s with Some (_, c) => down c | None => big end) sl in
+    (here, lvl) ::
+    (fix go (i : nat) (l : list slot) : list (nat * nat) :=
+       match l with
+       | [] => []
+       | None :: r => go (S i) r
+       | Some (_, c) :: r =>
+         let others := fold_right Nat.min big (map (fun p => if Nat.eqb (fst p) i then big else S (snd p))
+                                                   (combine (seq 0 (length kd)) kd)) in
+         let upc := if Nat.eqb (length sl) 1 then 1 else S (Nat.min up others) in
+         (depths_from upc (S lvl) c ++ go (S i) r)%list
+       end) 0 sl
+  end.
+
+Definition depths_ready (g : utree) (o : sexp) : option string :=
+  match (x <- get "depths" o ;; dec_list (dec_pair dec_Z dec_Z) x) with
+  | None => Some "node depths missing"
+  | Some ds =>
+    (* ComputeDepths on a rooted tree looks below the node only; on an unrooted tree in every direction *)
+    let exp := if UTree.rooted g then map (fun p => (down (fst p), snd (snd p))) (combine (nodes g) (depths_from big 0 g))
+               else depths_from big 0 g in
+    if negb (Nat.eqb (length ds) (length exp)) then Some "number of node depths differs from the number of nodes"
+    else if negb (forallb (fun p => Z.eqb (fst (fst p)) (Z.of_nat (fst (snd p)))) (combine ds exp))
+    then Some "Node.Depth() of a node is not its distance to the closest tip (below it when rooted): stale depth"
+    else if UTree.rooted g && negb (forallb (fun p => Z.eqb (snd (fst p)) (Z.of_nat (snd (snd p)))) (combine ds exp))
+    then Some "the root depth of a node is not its distance to the root"
+    else None
+  end.
+
 Definition indexes_ready (g : utree) (o : sexp) : option string :=
   let sorted := ssort (names_of g) in
   match get_strings "tipindex" o, (x <- get "tipidx" o ;; dec_list dec_tipidx x),
@@ -186,7 +230,8 @@ Definition oracle_tree (gen : string) (n : nat) (rooted : bool) (names : list st
       (if String.eqb gen "caterpillar" && Nat.leb 3 (length exp) && negb (caterpillar g) then Some "not a caterpillar" else None);
       (if String.eqb gen "balanced" && Nat.leb 2 n && negb (balanced rooted n g) then Some "not balanced" else None);
       (if String.eqb gen "balanced" && Nat.eqb n 1 && rooted && negb (balanced rooted n g) then Some "not balanced" else None);
-      indexes_ready g o ].
+      indexes_ready g o;
+      depths_ready g o ].
 
 Definition oracle_topologies (n : nat) (rooted : bool) (names : list string) (gs : list utree) (o : sexp)
   : option string :=
